@@ -28,7 +28,9 @@ RULE = ('sampler zoo (16 univariate configurations incl. wrapper/KDE/constants, 
         '4 sizes x 3 seeds; non-trivial = every transition; distinct = distinct (model, RNG-state vector)')
 ASSUMPTIONS = ['models A, B, U and the twin are separate fits of the same specification (fit is deterministic: C19)']
 
-OPS = ('sA1', 'sA3', 'sB1', 'sB3', 'sU2', 'g', 'xA', 'rA')
+OPS = ('sA1', 'sA3', 'sB1', 'sB3', 'sU2', 'g', 'xA', 'rA', 'nA', 'fA')
+# nA: A.set_random_state(None) - from then on A is driven by the global generator; fA: A is fitted again on its own training data
+# (same parameters, and a fit is not a sample call: the seeded stream simply continues)
 
 
 def sampler_specs(tier):
@@ -81,6 +83,26 @@ def _sample(m, spec, n):
     if spec[0] in ('uni',):
         return m.sample(n)
     return m.sample(n)
+
+
+def _refittable(spec):
+    """Specs whose fit is deterministic, touches no generator, and has training data to repeat."""
+    if spec[0] == 'biv':
+        return False
+    if spec[0] == 'uni':
+        m = spec[1]
+        # (a re-fitted GaussianKDE resamples its training set from the global generator: known finding of C19)
+        return m[0] != 'kde' and not (m[0] == 'univariate' and len(m) > 1 and 'sample' in str(m[1]))
+    return True
+
+
+def _refit(m, spec):
+    import warnings
+    s = spec if spec[0] != 'gm-cond' else ('gm',) + spec[1:]
+    X = zoo.training_data(s)
+    with warnings.catch_warnings():
+        warnings.simplefilter('ignore')
+        m.fit(X.copy())
 
 
 def _arr(x):
@@ -185,8 +207,12 @@ def run_case(case):
                 n = -1 if op == 'xA' else int(op[2])
                 m = A if who == 'A' else B
                 got = _arr(zoo.attempt(_sample, m, spec, n))
-                exp, after = twin(ref[who], n)
-                ref[who] = after
+                if ref[who] is None:               # un-seeded by nA: the global generator drives (and is advanced by) the call
+                    exp, after = twin(ref['G'], n)
+                    ref['G'] = after
+                else:
+                    exp, after = twin(ref[who], n)
+                    ref[who] = after
                 if not seq.values_equal(got, exp):
                     r.violation(f'C15:{spec[0]}:{_lab(spec)}:stream', f'{tag}: output of {op} differs from the stream '
                                 f'determined by (model, seed, previous calls): {_s(got)} vs twin {_s(exp)}', case=case)
@@ -208,6 +234,16 @@ def run_case(case):
             elif op == 'rA':
                 A.set_random_state(5)
                 ref['A'] = np.random.RandomState(5).get_state()
+            elif op == 'nA':
+                A.set_random_state(None)
+                ref['A'] = None
+            elif op == 'fA':
+                if _refittable(spec):
+                    res_ = zoo.attempt(_refit, A, spec)
+                    if isinstance(res_, zoo.Raised):
+                        r.violation(f'C15:{spec[0]}:{_lab(spec)}:refit-raises', f'{tag}: fitting the model again on its own '
+                                    f'training data raised {res_.name}: {res_.msg}', case=case)
+                        return False
             if seq.canon(np.random.get_state()) != seq.canon(ref['G']):
                 r.violation(f'C15:{spec[0]}:{_lab(spec)}:global-state-perturbed', f'{tag}: the global NumPy generator state '
                             f'after {op} is not the expected one', case=case)
@@ -235,6 +271,20 @@ def run_case(case):
         dfs(reset(), ())
         if stop:
             break
+        # a few longer histories for every sampler (the DFS of vines stops at length 2): a fit in the middle of a seeded
+        # sequence, after a re-seed, and after the seed was removed
+        if pi == 0:
+            for hist in (('sA1', 'fA', 'sA1'), ('rA', 'fA', 'sA1'), ('rA', 'sA1', 'fA', 'sA3'), ('nA', 'fA', 'sA1'),
+                         ('sA1', 'nA', 'sA1', 'sU2')):
+                ref = reset()
+                for k_, op in enumerate(hist):
+                    if not step(op, ref, hist[:k_ + 1]):
+                        stop.append(1)
+                        break
+                if stop:
+                    break
+            if stop:
+                break
     r.nontriv()
     r.hit(f'kind:{spec[0]}')
     r['sample'] = {'sampler': [str(x) for x in spec], 'seed_form': sf, 'depth': depth, 'operations': list(OPS)}
